@@ -251,6 +251,40 @@ pub fn judge(c: &FileCase, ev: &mut Local) -> Result<(), Fail> {
                 },
                 Err(e) => fail!(format!("c17:{f}-own-output-rejected"), "{}: the parser rejects what the writer produced from a parsed file: {e}", c.label),
             }
+            // the writer must not depend on the sink: through a sink that accepts 1 / 7,3 bytes per call the same bytes come
+            // out, and a write that fails half-way leaves nothing behind that changes the next one
+            if c.bytes.len() <= 16 * 1024 {
+                let write_into = |sink: &mut TrickleSink| -> Result<Result<(), String>, String> {
+                    guard(|| {
+                        let mut cur = Cursor::new(&c.bytes[..]);
+                        match c.fmt {
+                            Format::Pth => Pth::read(&mut cur).map_err(|e| e.to_string())?.write(sink).map_err(|e| e.to_string()),
+                            Format::Smx => Smx::read(&mut cur).map_err(|e| e.to_string())?.write(sink).map_err(|e| e.to_string()),
+                        }
+                    })
+                };
+                for pattern in [&[1usize][..], &[7, 3]] {
+                    let mut sink = TrickleSink::new(pattern);
+                    let r = write_into(&mut sink).map_err(|p| Fail::new(format!("c17:{f}-writer-panics"), p))?;
+                    ensure!(r.is_ok() && sink.bytes() == &rewritten[..], format!("c17:{f}-writer-depends-on-the-sink"), "{}: written into a sink accepting {pattern:?} bytes per call: {:?}, {} bytes instead of {}", c.label, r, sink.bytes().len(), rewritten.len());
+                }
+                let mut full = TrickleSink::failing_after(rewritten.len() / 3);
+                let _ = write_into(&mut full);
+                if c.fmt == Format::Smx && c.bytes.len() >= 48 {
+                    // ... also when the failed write was of another file, with a longer track name, and failed inside that name
+                    let mut other = c.bytes.clone();
+                    other[16..47].copy_from_slice(&[b'Z'; 31]);
+                    other[47] = 0;
+                    let mut full = TrickleSink::failing_after(16 + 20);
+                    let _ = guard(|| {
+                        let mut cur = Cursor::new(&other[..]);
+                        Smx::read(&mut cur).map_err(|e| e.to_string())?.write(&mut full).map_err(|e| e.to_string())
+                    });
+                }
+                let mut good = TrickleSink::new(&[usize::MAX]);
+                let r = write_into(&mut good).map_err(|p| Fail::new(format!("c17:{f}-writer-panics"), p))?;
+                ensure!(r.is_ok() && good.bytes() == &rewritten[..], format!("c17:{f}-writer-depends-on-the-sink"), "{}: after a write that failed at byte {} the file is written differently (first difference at {:?})", c.label, rewritten.len() / 3, good.bytes().iter().zip(rewritten.iter()).position(|(a, b)| a != b));
+            }
             if c.canonical {
                 ensure!(*rewritten == c.bytes, format!("c17:{f}-canonical-file-not-reproduced"), "{}: canonical file of {} bytes is written back as {} bytes; first difference at {:?}", c.label, c.bytes.len(), rewritten.len(), rewritten.iter().zip(c.bytes.iter()).position(|(a, b)| a != b));
             }
